@@ -24,6 +24,11 @@ type GvcPU struct {
 	A int
 	b int
 }
+type GvcPV struct {
+	a int
+	B int
+	C []int
+}
 type GvcPN struct {
 	P GvcPS
 	L []int
@@ -54,6 +59,12 @@ func TestGvcReplay(t *testing.T) {
 		{"map length differs", map[string]int{"a": 1, "b": 2}, map[string]int{"a": 1}, false},
 		{"struct equal", GvcPS{1, "x"}, GvcPS{1, "x"}, true}, {"struct field differs", GvcPS{1, "x"}, GvcPS{1, "y"}, false},
 		{"struct with unexported field equal", GvcPU{1, 2}, GvcPU{1, 2}, true}, {"struct with unexported field, exported differs", GvcPU{1, 2}, GvcPU{3, 2}, false},
+		{"struct with leading unexported field equal", GvcPV{1, 2, []int{3}}, GvcPV{1, 2, []int{3}}, true},
+		{"struct with leading unexported field, later exported field differs", GvcPV{1, 2, []int{3}}, GvcPV{1, 9, []int{3}}, false},
+		{"struct with leading unexported field, later slice field differs", GvcPV{1, 2, []int{3}}, GvcPV{1, 2, []int{4}}, false},
+		{"pointer to struct differs", &GvcPS{1, "x"}, &GvcPS{1, "y"}, false},
+		{"slice of structs differs at 1", []GvcPS{{1, "x"}, {2, "y"}}, []GvcPS{{1, "x"}, {2, "z"}}, false},
+		{"map of slices differs", map[string][]int{"a": {1, 2}}, map[string][]int{"a": {1, 3}}, false},
 		{"nested struct equal", GvcPN{GvcPS{1, "x"}, []int{1, 2}}, GvcPN{GvcPS{1, "x"}, []int{1, 2}}, true},
 		{"nested struct slice differs", GvcPN{GvcPS{1, "x"}, []int{1, 2}}, GvcPN{GvcPS{1, "x"}, []int{1, 3}}, false},
 		{"embedded struct equal", GvcEmbS{GvcPS{1, "x"}, true}, GvcEmbS{GvcPS{1, "x"}, true}, true},
